@@ -128,7 +128,7 @@ def check_public_key_encoding(blob: bytes) -> None:
 
 def checksig(
     vm: Any,
-    sig_pair: tuple[int, int],
+    sig_pair: tuple[int, int] | None,
     signature_type: int,
     pair_blob: bytes,
     blobs_to_delete: Any,
@@ -142,6 +142,9 @@ def checksig(
     if verify_witness_pubkeytype:
         if pair_blob[0] not in (2, 3) or len(pair_blob) != 33:
             raise ScriptError("uncompressed key in witness", errno.WITNESS_PUBKEYTYPE)
+    if sig_pair is None:
+        # empty or unparsable signature: it fails, but only after the key was checked
+        return False
     try:
         public_pair = sec_to_public_pair(pair_blob, generator, strict=verify_strict)
     except (ValueError, EncodingError):
@@ -170,12 +173,15 @@ def checksigs(vm: Any, sig_blobs: list[bytes], public_pair_blobs: list[bytes]) -
 
     while len(sig_blobs_remaining) > 0:
         sig_blob = sig_blobs_remaining.pop()
-        try:
-            sig_pair, signature_type = parse_and_check_signature_blob(
-                sig_blob, flags, vm
-            )
-        except (der.UnexpectedDER, ValueError):
-            public_pair_blobs = []
+        sig_pair: tuple[int, int] | None = None
+        signature_type = 0
+        if len(sig_blobs_remaining) < len(public_pair_blobs):
+            try:
+                sig_pair, signature_type = parse_and_check_signature_blob(
+                    sig_blob, flags, vm
+                )
+            except (der.UnexpectedDER, ValueError):
+                pass
         while len(sig_blobs_remaining) < len(public_pair_blobs):
             pair_blob = public_pair_blobs.pop()
             if checksig(
